@@ -491,6 +491,9 @@ def biv_extra(ctx, which):
     meths = [m for m in _BIV_METHODS[which]]
     E2.biv_near_independence(ctx, meths + (['log_probability_density'] if which == 'C07' and 'log_probability_density' not in meths else []))
     E2.biv_error_state(ctx, [m for m in meths if m != 'sample'])
+    E2.biv_long_batch(ctx, meths + (['log_probability_density'] if which == 'C07' and 'log_probability_density' not in meths else []),
+                      thorough=(ctx.tier != 'quick'))
+    E2.biv_integer_theta(ctx, meths)
     if which == 'C06':
         E2.biv_boundary_rows(ctx, ['cumulative_distribution'])      # C06's domain includes the boundary of the square; C07's does not
     if which == 'C08':
